@@ -54,7 +54,9 @@ def renderTokens (ts : List (Token F)) : Str := joinWith [' '] (ts.map Token.ren
 /-- how `ProgramLines::list` spells the tokens of a line: like `Display`, except
     that a numeral right after an identifier (which can only have been written
     with a leading decimal point) is listed without its leading zero, so that it
-    is not absorbed into the identifier when the listing is read back. -/
+    is not absorbed into the identifier when the listing is read back; such a
+    numeral can round up to 1, which is listed as a leading-point numeral that
+    rounds the same way. -/
 def listSpellings : Option (Token F) → List (Token F) → List Str
   | _, [] => []
   | prev, t :: rest =>
@@ -62,7 +64,10 @@ def listSpellings : Option (Token F) → List (Token F) → List Str
     let s :=
       match prev, t with
       | some (.symbol sym), .num _ =>
-        if !endsWithDollar sym && s.head? == some '0' then (if s == ['0'] then ['.', '0'] else s.tail) else s
+        if endsWithDollar sym then s
+        else if s == ['0'] then ['.', '0']
+        else if s == ['1'] then ".99999999999999999999".toList
+        else if s.head? == some '0' then s.tail else s
       | _, _ => s
     s :: listSpellings (some t) rest
 
